@@ -437,6 +437,11 @@ func init() {
 		"logCount": func(s *State, fn *ssa.Function, args []Value, where string) []Value {
 			kind := args[0].(*StringV).litOr("")
 			cnt := 0
+			if s.cutLoopAt >= 0 && s.logBase() < s.cutLoopAt {
+				// the events of the iterations of a cut loop are not in the log: a count over a range that spans
+				// the loop would be a claim about a log the engine does not have
+				unsup("logCount over a range that contains a loop cut by an invariant")
+			}
 			for i := s.logBase(); i < len(s.log); i++ {
 				if s.log[i].Callee == kind {
 					cnt++
